@@ -14,7 +14,7 @@ import tempfile
 
 import numpy as np
 
-from .. import cover, emmon, gen, ref, world
+from .. import carrier, cover, emmon, gen, ref, world
 from . import c13
 
 LEVEL = 'exploration'
@@ -22,7 +22,8 @@ JOBS = {'quick': 4, 'thorough': 16}
 REQUIRED_MONITORS = ('output_vs_truth', 'map_call_log', 'early_extrapolation_refused', 'em_shape_contract')
 REQUIRED_CLASSES = ('species:unmapped-interleaved', 'solvent', 'box:triclinic', 'box:rect', 'ref:1-atom', 'ref:2-atoms',
                     'ref:general', 'multi-residue', 'order:random', 'order:blocks', 'order:alternating', 'shipped-bmim-bf4',
-                    'early:no-maps', 'early:no-end-molecules', 'early:partial-maps', 'residue-numbers:gaps-inside-a-mapped-multi-residue-molecule', 'output-atoms:>=100000', 'target:one-atom-first-in-file', 'species:homopolymer-neighbours')
+                    'early:no-maps', 'early:no-end-molecules', 'early:partial-maps', 'residue-numbers:gaps-inside-a-mapped-multi-residue-molecule', 'output-atoms:>=100000', 'target:one-atom-first-in-file', 'species:homopolymer-neighbours',
+                    'carrier:relative-path', 'carrier:handle', 'carrier:handle-relative-then-chdir')
 RULE = ('generated systems: 2-4 species (1-, 2-, many-bead; single and multi-residue) + solvent, 1..60 instances each in '
         'random/blocked/alternating order, a random non-empty subset of species given an end molecule, rectangular and '
         'triclinic boxes, s in {0.3,0.5,1,1.5}; plus the shipped BMIM/BF4 box. Non-trivial: at least two mapped species or a '
@@ -163,6 +164,12 @@ def judge_output(ctx, out_path, title, box, eligible, end_sizes, end_atoms, man,
 
 
 def run_gen(ctx, case):
+    import contextlib
+    with contextlib.ExitStack() as stack:
+        _run_gen(ctx, case, stack)
+
+
+def _run_gen(ctx, case, stack):
     from gaddlemaps import Manager, Alignment
     from gaddlemaps.components import Molecule
     i = case['i']
@@ -217,7 +224,20 @@ def run_gen(ctx, case):
         old = Alignment.STEPS_FACTOR
         Alignment.STEPS_FACTOR = int(rng.integers(2, 6))
         np.random.seed(ctx.libseed('gen', i))
-        man = Manager.from_files(w['system_gro'], *[w['files'][n]['top_start'] for n in w['files']])
+        # the input file reaches the manager as a path, a name relative to a working directory that is left again before
+        # anything is written, or an open handle (see carrier.py); where the process goes after opening a relative name,
+        # a file of the same name holds the same system somewhere else in space
+        kind = carrier.next_kind(ctx)
+        wit['carrier'] = kind
+        decoy = os.path.join(root, 'decoy_system.gro')
+        gen.write_gro(decoy, w['title'], [(r[0], r[1], r[2], r[3], tuple(np.asarray(r[4], float) + 0.7)) + tuple(r[5:]) for r in w['records']], w['box'])
+        tops = [w['files'][n]['top_start'] for n in w['files']]
+        cm = carrier.carried(w['system_gro'], kind, decoy=decoy)
+        if kind == 'relative-path':
+            with cm as given:
+                man = Manager.from_files(given, *tops)
+        else:
+            man = Manager.from_files(stack.enter_context(cm), *tops)
         # --- requesting extrapolation before anything is attached: error, no file
         ctx.monitor('early_extrapolation_refused')
         for stage in ('no-end-molecules', 'no-maps'):
